@@ -453,8 +453,51 @@ func cmdCheck(args []string) int {
 			}
 		}(idxs)
 	}
+	// batches: obligations of one site on one path are first tried as one conjunction
+	type bkey struct {
+		reg *Registry
+		id  int
+	}
+	batches := map[bkey][]int{}
+	inBatch := map[int]bool{}
 	for i, j := range ck.jobs {
-		if j.o.Kind == "vacuity" {
+		if j.o.Batch != 0 && j.o.Kind != "vacuity" && !j.o.Folded {
+			k := bkey{j.reg, j.o.Batch}
+			batches[k] = append(batches[k], i)
+		}
+	}
+	for k, idxs := range batches {
+		if len(idxs) < 2 {
+			continue
+		}
+		for _, i := range idxs {
+			inBatch[i] = true
+		}
+		wg.Add(1)
+		sem <- struct{}{}
+		go func(k bkey, idxs []int) {
+			defer wg.Done()
+			defer func() { <-sem }()
+			var goals []string
+			for _, i := range idxs {
+				goals = append(goals, ck.jobs[i].o.Goal)
+			}
+			first := ck.jobs[idxs[0]].o
+			bo := &Obligation{Name: first.Name + "+batch", Goal: and(goals...), Items: first.Items, Where: first.Where, Src: "batch"}
+			br := dis.DischargeBatch(k.reg, bo)
+			if br {
+				for _, i := range idxs {
+					results[i] = &OblResult{O: ck.jobs[i].o, Status: "proved", Res: SolveResult{Status: "unsat", Solver: "z3-new(batch)"}}
+				}
+				return
+			}
+			for _, i := range idxs {
+				results[i] = dis.Discharge(ck.jobs[i].reg, ck.jobs[i].o)
+			}
+		}(k, idxs)
+	}
+	for i, j := range ck.jobs {
+		if j.o.Kind == "vacuity" || inBatch[i] {
 			continue
 		}
 		wg.Add(1)
